@@ -26,6 +26,15 @@ def gen_consts(steps, **over):
     return consts(**c)
 
 
+def runs3_consts():
+    """an interrupted / discarded / ordinary operation, then another recorded operation, then a replay of what is stored:
+    whatever the first run left behind must not make the second recording incomplete-but-unflagged"""
+    return gen_consts(2, MaxRuns=3, MaxRecs=2, InCalls=[('ia2', 1)], OutAliases=['oa2'], Classes=[K('K1')], Draws=['low'],
+                      Bodies=['plain', 'interrupt', 'discards'], InFaults=['none', 'prepFail'], OutFaults=['none'],
+                      OutResults=[('val', 'v1'), ('int', 'BI'), ('exc', 'E1')], Ctl=['discard'], Ends=['ret', 'interrupt'],
+                      SaveFails=[False])
+
+
 def run(rep, tier, seed):
     rep.rule = ('behaviours = root-to-terminal paths of the TLC state graph of Recorder.tla (operation programs x '
                 'capture faults x discards x sampling outcomes x termination modes, then a same-program replay of '
@@ -41,7 +50,8 @@ def run(rep, tier, seed):
             ex = chk.generate('gen2', gen_consts(2), cassettes=('memory', 'file'), n_conc=1, all_paths=True, cap=60000)
             chk.generate('gen3', gen_consts(3, Classes=[K('K1')], Draws=['low'], InCalls=[('ia2', 1)],
                                             OutAliases=['oa2']),
-                         cassettes=('memory',), n_conc=1, sample=1500)
+                         cassettes=('memory', 'async'), n_conc=1, sample=1500)
+            chk.generate('gen3runs', runs3_consts(), cassettes=('memory', 'file'), n_conc=1, sample=2000)
             rep.exhaustive = bool(ex)
         else:
             chk.check('chk', gen_consts(4, Vals=['v1', 'v2']), invariants=INVS, timeout=3000)
@@ -49,6 +59,8 @@ def run(rep, tier, seed):
                                             Draws=['low'], OutResults=[('val', 'v1'), ('int', 'BI')]), invariants=INVS, timeout=3000)
             ex = chk.generate('gen2', gen_consts(2), cassettes=('memory', 'file'), n_conc=2, all_paths=True)
             chk.generate('gen3', gen_consts(3), cassettes=('memory',), n_conc=1, all_paths=True, cap=400000)
+            chk.generate('gen2async', gen_consts(2), cassettes=('async',), n_conc=1, all_paths=True)
+            chk.generate('gen3runs', runs3_consts(), cassettes=('memory', 'file'), n_conc=1, all_paths=True, cap=200000)
             rep.exhaustive = bool(ex)
     finally:
         chk.close()
